@@ -92,6 +92,13 @@ structure Shard where
   nextGen : Nat
   /-- series present in the index -/
   series : List Key
+  /-- Cache.Size() > 0 although values were dropped without being accounted (DESIGN F4:
+      `entry.deduplicate`, called by `Cache.Values` on a read, shrinks an entry that holds a
+      timestamp twice without adjusting `Cache.size`; the excess stays until the next
+      `Cache.Snapshot`).  Only observable here when everything else is then deleted: the
+      "empty" cache still has a size, so WriteSnapshot takes the non-empty path and
+      `Compactor.WriteSnapshot` consumes a generation without writing a file. -/
+  residue : Bool := false
 deriving Repr
 
 def Shard.empty : Shard := { cache := [], files := [], nextGen := 1, series := [] }
@@ -189,13 +196,26 @@ def cachePts (c : Cache) (k : Key) : List (TS × Val) :=
 def flushBlocks (c : Cache) : List Block :=
   (cacheKeys c).flatMap (fun k => mkBlocks k (cachePts c k))
 
-/-- WriteSnapshot: an empty cache writes nothing and consumes no generation.
+/-- some (key, time) is held twice by the cache: a read of that key deduplicates its entry -/
+def hasDup (c : Cache) : Bool :=
+  c.any (fun e => decide ((c.filter (fun e' => e'.1 == e.1 && e'.2.1 == e.2.1)).length > 1))
+
+/-- a read of every key of the universe through `Cache.Values` (the harness' `dump`) -/
+def Shard.noteRead (s : Shard) : Shard :=
+  if hasDup s.cache then { s with residue := true } else s
+
+/-- WriteSnapshot: an empty cache writes nothing and consumes no generation — unless its
+    size is not zero (`residue`): then the snapshot path runs on no values, consumes a
+    generation and writes no file.
     (Compactor.writeNewFiles returns no file when the iterator has no key; a
     non-empty cache always has one, so the inner test never fires — it keeps
     "every file has a block" a one-line invariant.) -/
 def Shard.flush (s : Shard) : Shard :=
-  if s.cache.isEmpty then s else
+  if s.cache.isEmpty then
+    (if s.residue then { s with nextGen := s.nextGen + 1, residue := false } else s)
+  else
   { s with
+    residue := false
     cache := []
     files := s.files ++ (if (flushBlocks s.cache).isEmpty then [] else
       [{ gen := s.nextGen, seq := 1, mtime := .fresh,
@@ -568,7 +588,7 @@ def step (st : State) : Op → State × Obs
     | some as =>
       let t := as.foldl (fun t a => t.importA a.2) Shard.empty
       (st, .target (targetNames t.files) t.dump)
-  | .dump => (st, .dumped st.src.dump)
+  | .dump => ({ st with src := st.src.noteRead }, .dumped st.src.dump)
   | .bigcase n _ =>
     if n = 0 || n > 50000 then (st, .badOp) else
     -- Engine.overlay registers every key of the restored files with its own block type,
